@@ -961,7 +961,7 @@ def strip(c):
 
 
 def run(ctx):
-    ctx.obligations_stage(PROPS, extra_targets=['C05/Examples.vo', 'C05/HierEx.vo'], gate_dirs=['C02'])
+    ctx.obligations_stage(PROPS, extra_targets=['C05/Examples.vo', 'C05/HierEx.vo', 'C05/HierEx2.vo'], gate_dirs=['C02'])
     ctx.assumptions += [
         'model: hand transcription of bspline.knot_insertion (the three loops over a lil_matrix, bspline.py:714-736) into Gallina over Qc '
         '(coq/C05/Model.v); prolongation(kv1,kv2) is SPECIFIED as the product of the single insertions of kv2 minus kv1 '
@@ -1163,11 +1163,10 @@ def run(ctx):
     ctx.cov['input_distribution'] = dist
     ctx.cov['exhaustive'] = False
     ctx.cov['bounds'] = {'knot_insertion': '2^-51', 'prolongation_max': float(max(bounds)) if bounds else None, 'hierarchical': '2^-23'}
-    ctx.cov['partial'] = ['levelwise_eval_eq_fine_thb_partial: THB proved for two coefficient-carrying levels only',
-                          'vh_prolongators_thb_repaired: rests on the hypothesis that H2 undoes T2 (product of truncate_one_level factors); code as it is: vh_prolongators_thb_old_refuted',
+    ctx.cov['partial'] = [                          'vh_prolongators_thb_repaired: rests on the hypothesis that H2 undoes T2 (product of truncate_one_level factors); code as it is: vh_prolongators_thb_old_refuted',
                           'prolongate_to_replaced_partial: propagation proved, canonical-index bookkeeping of the returned matrix not modelled',
                           'boundary_restriction: not proved (oracle only)',
-                          'index_hyp (children of deactivated functions lie in the refined region) is an explicit hypothesis, not derived from the C04 invariant']
+                          'reachable versions (vh_prolongators_hb_reachable, prolongate_to_replaced_reachable): children-closedness is C04.children_closed; remaining hypotheses: the non-zero pattern of the prolongator columns lies in the C04 children pattern, raveling injective and in range']
     if ki:
         ctx.sample({'knot_insertion': {'p': ki[0]['p'], 'kv': [float(x) for x in ki[0]['_kv']], 'u': float(ki[0]['_u']), 'impl_k': rki[0].get('k')}})
     if hier:
@@ -1181,8 +1180,11 @@ META = {
     'level_text': 'Theorems (Coq, unbounded, closed under the global context): knot_insertion_preserves (every well-formed open knot vector, every degree, every u in the domain incl. existing knots and end points, '
                   'every basis function, every point), knot_insertion_rows_sum_one, knot_insertion_nonneg, knot_insertion_entries (loops = closed form), refinement_wellformed, prolongation_preserves / _rows_sum_one / _nonneg '
                   '(any list of inserted knots), transfer_compose, transfer_coefficients. Tie: bspline.knot_insertion (span index exact, entries within 2^-51) and bspline.prolongation (within the stated cond-scaled bound) '
-                  'against the Qc model in vm_compute case files. Hierarchical conjuncts (virtual_hierarchy_prolongators, prolongate_to, represent_fine, HSplineFunc evaluation routes, boundary) are checked on the '
-                  'implementation by an independent exact oracle only (partial).',
+                  'against the Qc model in vm_compute case files. Hierarchical conjuncts (28 theorems in coq/C05/Props.v in all), over a multilevel basis with a two-scale relation that the Kronecker lifting '
+                  '(tp_prolongation_preserves, tp_two_scale, any dimension) provides for tensor-product B-splines: represent_fine_hb, levelwise_eval_eq_fine (HB) and levelwise_eval_eq_fine_thb / '
+                  'thb_to_hb_represent_fine (THB, any number of levels), vh_prolongators_hb (per level, composed, and _reachable on every C04-reachable HSpace state using C04.children_closed), '
+                  'vh_prolongators_thb_repaired (conditional on the inverse change of basis), vh_prolongators_thb_old_refuted (three-level witness tied to /repo), prolongate_to_replaced_partial/_reachable. '
+                  'Every hierarchical conjunct is additionally checked on the implementation by an independent exact oracle.',
     'level_note': 'Trusted: Coq kernel + vm_compute; transcription of knot_insertion; the specification of prolongation as a product of insertions; harness oracle (self-verified pointwise) and generators. '
-                  'Not proved: the hierarchical conjuncts (no Coq model of the HSpace state); spsolve.',
+                  'Not proved: matrix index bookkeeping of prolongate_to, THB on virtual levels / inverse change of basis for the repaired prolongators, boundary restriction, the link between the Qc knot vectors and the integer axes of C04 (pattern hypothesis); spsolve.',
 }
